@@ -46,7 +46,7 @@ type stdBatch struct {
 // of the property: who originated the batch, through which ODFI, as what.
 func identNames(kind string) []string {
 	if kind == "IAT" {
-		return []string{"OriginatorIdentification", "StandardEntryClassCode", "CompanyEntryDescription", "ODFIIdentification", "BatchControl.CompanyIdentification"}
+		return []string{"OriginatorIdentification", "StandardEntryClassCode", "CompanyEntryDescription", "ODFIIdentification"}
 	}
 	return []string{"CompanyName", "CompanyIdentification", "StandardEntryClassCode", "CompanyEntryDescription", "ODFIIdentification"}
 }
